@@ -92,6 +92,10 @@ func HarnessOverlay(repo, harnessRoot string) (map[string][]byte, error) {
 	for d, pkg := range dirs {
 		ov[filepath.Join(repo, d, "zz_vf_api.go")] = []byte(strings.Replace(string(api), "package PKG", "package "+pkg, 1))
 	}
+	// the skeleton-extraction package, shared by the engine and the native API
+	if b, err := os.ReadFile(filepath.Join(filepath.Dir(harnessRoot), "skel", "skel.go")); err == nil {
+		ov[filepath.Join(repo, "internal", "zzvfskel", "skel.go")] = b
+	}
 	return ov, nil
 }
 
